@@ -3,6 +3,10 @@
    regenerated from the source on every run and says which repairs the code contains
    (name check in NodeStreamer::next, exists flag after a removed clash, sparse guard).
 
+   (Round 4, below: nodes_ok derived from the tree; merge_walk_classifies for arbitrary destinations;
+   add_file_plan_correct / restore_contents_writes_plan with real match flags and from_file reads.
+   What remains is the joint induction that assembles them — NOTES.md gap G1''.)
+
    restore_exact: PROVED for every destination that holds nothing at a snapshot path (fresh
    destination, or any extras) — restore_exact_fresh_dest below, all trees / options / worlds —
    via the four lemmas merge_walk_extras_only, add_file_plan_correct_fresh,
